@@ -98,11 +98,23 @@ def cases(ctx):
         muts.append(('truncate', s[:-1])); muts.append(('extend', s + rng.choice(CHARSET)))
         i = rng.randrange(pos0, len(s))
         muts.append(('badchar', s[:i] + rng.choice('1bio') + s[i + 1:]))
+        conf = confusables()
+        for variant in (s, s.upper()):
+            idx = [j for j, c in enumerate(variant) if c in conf]
+            for j in rng.sample(idx, min(3, len(idx))):
+                muts.append(('unicode-confusable', variant[:j] + rng.choice(conf[variant[j]]) + variant[j + 1:]))
+            # the Kelvin sign lower-cases to k, the long s upper-cases to S: the two that str.lower()/upper() fold
+            for a, u in (('K', '\u212a'), ('k', '\u212a'), ('s', '\u017f'), ('S', '\u017f')):
+                if a in variant[pos0:]:
+                    j = variant.index(a, pos0)
+                    muts.append(('unicode-confusable', variant[:j] + u + variant[j + 1:]))
         muts.append(('other-version', spec_encode(hrp(net), 1 - ver, prog) if ln_ok(1 - ver, prog) else s[:-2]))
         for kind, m in muts:
             ctx.count('reject-' + kind)
             yield Case(f'sw_decode {ty}/{nh(net)} {ver} {sh(m)}', 'ms', nontrivial=True, tag='reject-' + kind,
                        spec=lambda ans: ('s:raw err', ans))
+            if kind in ('unicode-confusable', 'mixed-case', 'badchar', 'truncate'):
+                yield Case(f'is_bech32 {sh(m)}', 'ms', nontrivial=True, tag='predicate-' + kind, spec=lambda ans: ('s:raw ok 0', ans))
     # exhaustive (compiled, not proved): over the whole data part of the longest address (59 symbols) no pattern of 1..3
     # substituted symbols verifies under either checksum variant and none of 4 under the same variant
     yield Case('bch_exhaustive 59', 's', nontrivial=True, tag='bch-exhaustive',
@@ -114,6 +126,21 @@ def cases(ctx):
         yield Case(f'is_bech32 {sh(s)}', 'ms', nontrivial=True, tag='predicate-b58', spec=lambda ans: ('s:raw ok 0', ans))
     for s in ('', '1', 'bc1', 'abc', 'bc1qqqqqq'):
         yield Case(f'is_bech32 {sh(s) if s else "-"}', 'ms', nontrivial=True, tag='predicate-junk', spec=lambda ans: ('s:raw ok 0', ans))
+
+
+_CONF = {}
+def confusables():
+    """non-ASCII characters that some str method (lower, upper, casefold, NFKC/NFKD normalisation, int/digit value) maps
+    onto an ASCII letter or digit: c -> [u, ...].  They are not bech32 characters, whatever a normalising step makes of them."""
+    if not _CONF:
+        import unicodedata
+        for cp in list(range(0x80, 0x3000)) + list(range(0xff00, 0xfff0)) + list(range(0x1d400, 0x1d800)):
+            u = chr(cp)
+            imgs = {u.lower(), u.upper(), u.casefold(), unicodedata.normalize('NFKC', u), unicodedata.normalize('NFKD', u)}
+            for im in imgs:
+                if len(im) == 1 and im.isascii() and im.isalnum():
+                    _CONF.setdefault(im, []).append(u)
+    return _CONF
 
 
 def ln_ok(ver, prog): return ver != 0 or len(prog) in (20, 32)
